@@ -412,6 +412,18 @@ func (in *Interp) callNativeMethod(n Native, name string, args []Value, sig *typ
 		}
 	}
 	res := in.callNative(m, args, sig)
+	if name == "ReconstructBatch" {
+		// go-faiss fills the caller's buffer and returns it: keep the aliasing (and the capacity)
+		if tp, ok := res.(Tuple); ok && len(tp) == 2 {
+			if out, ok := tp[0].(Slice); ok {
+				if buf, ok := args[1].(Slice); ok && cap(buf.A) >= len(out.A) && buf.A != nil {
+					dst := buf.A[:len(out.A)]
+					copy(dst, out.A)
+					tp[0] = Slice{dst}
+				}
+			}
+		}
+	}
 	if len(in.ghost.handles) > 0 && (name == "Get" || name == "Current") {
 		if tp, ok := res.(Tuple); ok {
 			for i, v := range tp {
@@ -446,3 +458,18 @@ func nativeImplements(n Native, it *types.Interface) bool {
 }
 
 var _ = errors.New
+
+// nativeFieldCell returns a fresh cell holding the value of field i of the native struct n points to.
+func (in *Interp) nativeFieldCell(n Native, i int) *Value {
+	rv := reflect.ValueOf(n.V)
+	if rv.Kind() != reflect.Ptr || rv.IsNil() || rv.Elem().Kind() != reflect.Struct || i >= rv.Elem().NumField() {
+		panic(abortPath{"unsupported", fmt.Sprintf("field %d of native %T", i, n.V)})
+	}
+	f := rv.Elem().Field(i)
+	if !f.CanInterface() {
+		panic(abortPath{"unsupported", fmt.Sprintf("unexported field %d of native %T", i, n.V)})
+	}
+	c := new(Value)
+	*c = in.fromNative(f)
+	return c
+}
